@@ -70,6 +70,8 @@ type caseData struct {
 	// srcWrap, when set, puts the simulator's wrapper in front of the source bucket: opening and
 	// reading source objects become scheduling and fault points ("src:" positions)
 	srcWrap func(storage.ReadBucket) storage.ReadBucket
+	// shape: a per-case choice of the write path (which boundary shape its input has)
+	shape int
 }
 
 func init() {
@@ -94,6 +96,11 @@ type writePath struct {
 	modules bool // needs a module universe
 	osOnly  bool // destination is always a real directory (reached through a storageos.Provider)
 	rawDst  bool // the code writes the destination file itself (faults come from the raw hooks below)
+	// expect, when set, is the destination state the path must produce, computed by the harness itself from
+	// the inputs (otherwise the fault-free execution defines it); mayReject: the fault-free execution may
+	// refuse the input with an error (then there is nothing to enumerate) - but it may not succeed with less
+	expect    func(c *caseData) map[string]string
+	mayReject func(c *caseData) bool
 	cli     bool // a CLI command run in-process on a generated workspace; it opens the destination itself (raw hooks)
 	// heals: a cache that every invocation validates and repairs - after a failed invocation the path is
 	// invoked once more on the same destination (no fault left); if that succeeds the state must be complete
@@ -363,7 +370,72 @@ func init() {
 			}
 			return w.Close()
 		}},
+		// two plugins writing into one directory, the second inserting into the first one's file. Shapes: an
+		// ordinary file; a line longer than a scanner's 64 KiB token limit BELOW the insertion point of the
+		// target file; such a line in the INSERTED content. The expected tree is computed here, not taken
+		// from a fault-free run: the path may refuse a long line, it may not succeed with less than everything.
+		&writePath{name: "PluginResponseWriter(dir+insertion)", osOnly: true,
+			mayReject: func(c *caseData) bool { return c.shape != 0 },
+			expect: func(c *caseData) map[string]string {
+				out := map[string]string{}
+				for _, p := range c.paths {
+					out[p] = insertionTarget(c, p)
+				}
+				t := c.paths[0]
+				marker := "// @@protoc_insertion_point(tail)"
+				i := strings.Index(out[t], marker)
+				inserted := ""
+				for _, l := range strings.Split(strings.TrimSuffix(insertionContent(c), "\n"), "\n") {
+					inserted += l + "\n"
+				}
+				out[t] = out[t][:i] + inserted + out[t][i:]
+				for p := range out {
+					// (whether a file keeps its final newline after an insertion is not part of the statement)
+					out[p] = strings.TrimRight(out[p], "\n")
+				}
+				return out
+			},
+			run: func(ctx context.Context, c *caseData, d *dest) error {
+				w := bufprotopluginos.NewResponseWriter(slogext.NopLogger, d.provider, bufprotopluginos.ResponseWriterWithCreateOutDirIfNotExists())
+				resp := &pluginpb.CodeGeneratorResponse{}
+				for _, p := range c.paths {
+					resp.File = append(resp.File, &pluginpb.CodeGeneratorResponse_File{Name: proto.String(p), Content: proto.String(insertionTarget(c, p))})
+				}
+				if err := w.AddResponse(ctx, resp, d.dir); err != nil {
+					return err
+				}
+				second := &pluginpb.CodeGeneratorResponse{File: []*pluginpb.CodeGeneratorResponse_File{
+					{Name: proto.String(c.paths[0]), InsertionPoint: proto.String("tail"), Content: proto.String(insertionContent(c))},
+				}}
+				if err := w.AddResponse(ctx, second, d.dir); err != nil {
+					return err
+				}
+				return w.Close()
+			}},
 	)
+}
+
+// insertionTarget is what the first plugin generates for p: the file's content, an insertion point and,
+// in shape 1, a line of 70 000 bytes below it.
+func insertionTarget(c *caseData, p string) string {
+	body := strings.TrimRight(string(c.files[p]), "\n")
+	if strings.Contains(body, "@@protoc_insertion_point(tail)") {
+		body = "x"
+	}
+	out := body + "\n// @@protoc_insertion_point(tail)\n"
+	if c.shape == 1 && p == c.paths[0] {
+		out += "const blob = \"" + strings.Repeat("A", 70000) + "\"\n"
+	}
+	return out + "// end of " + p + "\n"
+}
+
+// insertionContent is what the second plugin inserts: two short lines and, in shape 2, a line of 70 000
+// bytes between them.
+func insertionContent(c *caseData) string {
+	if c.shape == 2 {
+		return "inserted first\nconst table = \"" + strings.Repeat("B", 70000) + "\"\ninserted last\n"
+	}
+	return "inserted first\ninserted last\n"
 }
 
 // writePluginArchive: generated files of two plugins (the second inserts into the first one's
@@ -862,7 +934,29 @@ func run(tp *tape.Tape, env *engine.Env) *engine.Outcome {
 		s.Probe("source-side-fault-positions")
 	}
 	counters := map[string]int{}
+	if c.wp.expect != nil {
+		c.shape = tp.Draw("shape", 3)
+	}
 	refErr, E, refPol := r.exec(c, true, nil)
+	if refErr != nil && c.wp.mayReject != nil && c.wp.mayReject(c) {
+		// the input was refused outright, with an error: nothing was promised, nothing to enumerate
+		s.Probe("boundary-shape-rejected-with-an-error")
+		s.Event("fault-free execution refused shape %d: error", c.shape)
+		s.Drain()
+		return engine.FromSim(s)
+	}
+	if refErr == nil && c.wp.expect != nil {
+		want := c.wp.expect(c)
+		got := map[string]string{}
+		for k, v := range E {
+			got[k] = strings.TrimRight(v, "\n")
+		}
+		if d := diffState(want, got); d != "" {
+			s.Violate("success-implies-complete", fmt.Sprintf("C15|success-incomplete|%s|fault-free|shape%d", c.wp.name, c.shape),
+				"%s (dst=%s) reported success without any failure, but its output is not what the responses say (shape %d: 0 = ordinary, 1 = a 70 000 byte line below the insertion point, 2 = a 70 000 byte line in the inserted content): %s", c.wp.name, c.dstKind, c.shape, d)
+		}
+		s.Probe("output-compared-with-independent-expectation")
+	}
 	if refErr != nil {
 		s.Violate("harness-reference", "harness|reference-failed|"+c.wp.name, "fault-free execution failed: %v", refErr)
 		s.Drain()
